@@ -31,7 +31,7 @@ Safe(x) == x.out \notin {"PANIC", "HANG"}
 Ty == TypeIx(e.code)
 Pick == PickOf(Ty, e.tags)
 IsTlv == e.kind = "tlv"
-MustAccept == IF e.kind = "trunc" THEN FALSE ELSE IF IsTlv THEN TlvMust(e.tlv.carrier, e.tlv.items, e.tlv.stray, e.ctx) ELSE Must(Ty, Pick, e.ctx)
+MustAccept == IF e.kind \in {"trunc", "code"} THEN FALSE ELSE IF IsTlv THEN TlvMust(e.tlv.carrier, e.tlv.items, e.tlv.stray, e.ctx) ELSE Must(Ty, Pick, e.ctx)
 Bytes == BytePreserved(e.code) /\ (IsTlv \/ ~HasPtr(Prims(Ty, Pick)))
 
 Problems ==
@@ -43,7 +43,12 @@ Problems ==
     \cup (IF MustAccept /\ e.rec.out = "ok" /\ e.rec.next # e.recEnd THEN {"record-boundary-missed"} ELSE {})
     \cup (IF MustAccept /\ e.msg.out = "ok" /\ e.msg.present # TRUE THEN {"record-dropped"} ELSE {})
     \cup (IF e.msg.out = "ok" /\ e.msg.fix # "equal" THEN {"reencoding-not-a-fixpoint"} ELSE {})
-    \cup (IF MustAccept /\ Bytes /\ e.msg.out = "ok" /\ e.msg.rdataSame # TRUE THEN {"rdata-not-preserved"} ELSE {})
+    \cup (IF MustAccept /\ Bytes /\ e.msg.out = "ok" /\ e.msg.rdataSame # "yes" THEN {"rdata-not-preserved"} ELSE {})
+    \* the decoded type set of NSEC / NSEC3 / CSYNC is the one the bit map stands for
+    \cup (IF MustAccept /\ ~IsTlv /\ HasBitmap(e.code) /\ e.msg.out = "ok"
+             /\ BitmapTypes(e.tags[Len(e.tags)]) # {0 - 1}
+             /\ {e.msg.types[i] : i \in 1..Len(e.msg.types)} # BitmapTypes(e.tags[Len(e.tags)])
+          THEN {"type-set-differs"} ELSE {})
 
 Allowed == e.ev = "g" /\ Problems = {}
 
